@@ -257,3 +257,53 @@ def deviations(domains, k):
 
 def count_deviations(domains, k):
     return sum(1 for _ in deviations(domains, k))
+
+
+# ---------------------------------------------------------------------------------------------
+# Explorer D, dynamic form: choice points are discovered while the case is being generated (choosing
+# another constructor reveals new choice points).  `Chooser.choose(label, n)` returns the planned
+# alternative for the i-th choice point of this run (default 0) and records the point.
+class StalePlan(Exception):
+    pass
+
+
+class Chooser:
+    def __init__(self, plan=None):
+        self.plan = plan or {}
+        self.points = []          # (label, number of alternatives, taken)
+
+    def choose(self, label, n):
+        i = len(self.points)
+        a = self.plan.get(i, 0)
+        if a >= n:
+            raise StalePlan(f'choice point {i} ({label}) has {n} alternatives, plan wants {a}')
+        self.points.append((label, n, a))
+        return a
+
+    def deviations(self):
+        return [(i, p[0], p[2]) for i, p in enumerate(self.points) if p[2]]
+
+
+def explore(gen_one, k):
+    """deviation-bounded enumeration over lazily discovered choice points: yields (plan, chooser, result)
+    for the all-defaults run and for EVERY run with at most k non-default choices.  Runs are produced in
+    order of first deviation position, the default run first.  gen_one(chooser) -> result; an exception
+    raised by gen_one is yielded as the result (the caller decides what it means)."""
+    def rec(plan, start, left):
+        ch = Chooser(plan)
+        try:
+            res = gen_one(ch)
+        except StalePlan:
+            raise
+        except Exception as e:      # noqa
+            res = e
+        yield plan, ch, res
+        if left == 0:
+            return
+        for i in range(start, len(ch.points)):
+            label, n, a = ch.points[i]
+            for alt in range(1, n):
+                p = {j: v for j, v in plan.items() if j < i}
+                p[i] = alt
+                yield from rec(p, i + 1, left - 1)
+    yield from rec({}, 0, k)
